@@ -27,3 +27,8 @@ extern int __vf_cur;
 #define malloc(n) __vf_malloc(n)
 #define realloc(p, n) __vf_realloc(p, n)
 #define free(p) __vf_free(p)
+#ifdef VF_LOOP_MEM
+/* byte-loop memcpy/memset/strcmp: keeps small buffers field-sensitive when the length is symbolic (bounded by the unwinding limit) */
+void *__vf_memcpy_loop(void *d, const void *s, size_t n);
+#define memcpy(d, s, n) __vf_memcpy_loop(d, s, n)
+#endif
